@@ -204,6 +204,14 @@ def oracle(chk: C.Check, r, thorough: bool) -> tuple[int, int, list]:
         ("{% macro m %}{% include 'q' %}{% endmacro %}{% call m %}", {"q": "Q"}, ("E", "DisabledTagError")),
         ("{% render 'p', x: 1 %}", {"p": "{% render 'q' %}", "q": "[{{ x }}]"}, ("T", "[]")),
         ("{% assign y = 'L' %}{% for i in (1..1) %}{% render 'q' %}{% endfor %}", {"q": "[{{ y }}{{ i }}{{ forloop.index }}]"}, ("T", "[]")),
+        # isolation does not wear off with depth: arguments / locals of level n are invisible at level n + 2
+        ("{% assign l = 'L' %}{% render 'p', x: 1 %}", {"p": "{% assign m = 'M' %}{% render 'q', y: 2 %}", "q": "{% render 'r', z: 3 %}",
+                                                         "r": "[{{ x }}{{ y }}{{ z }}{{ l }}{{ m }}]"}, ("T", "[3]")),
+        ("{% macro m, a %}{% render 'q', y: 2 %}{% endmacro %}{% call m, 'A' %}", {"q": "{% render 'r' %}", "r": "[{{ a }}{{ y }}]"}, ("T", "[]")),
+        ("{% render 'p', x: 1 %}", {"p": "{% macro m, a %}{% render 'r' %}{% endmacro %}{% call m, 'A' %}", "r": "[{{ a }}{{ x }}]"}, ("T", "[]")),
+        ("{% extends 'b3' %}{% block c %}{% render 'q', y: 2 %}{% endblock %}",
+         {"b3": "{% assign base = 'B' %}{% for i in (1..1) %}{% block c %}{% endblock %}{% endfor %}", "q": "{% render 'r' %}", "r": "[{{ base }}{{ i }}{{ y }}]"},
+         ("T", "[]")),
         # the name bound by render ... with / for must be visible in the partial even without any other data (fixed in /repo 95ad23b)
         ("{% render 'q' with 'x' as y %}", {"q": "[{{ y }}]"}, ("T", "[x]")),
         ("{% render 'q' for (1..2) as y %}", {"q": "[{{ y }}{{ forloop.index }}]"}, ("T", "[11][22]")),
